@@ -274,6 +274,7 @@ class ModuleInfo:
     classes: Dict[str, ClassInfo] = field(default_factory=dict)
     functions: Dict[str, FunctionInfo] = field(default_factory=dict)
     assigns: Dict[str, ast.expr] = field(default_factory=dict)
+    sub_assigns: Dict[str, list] = field(default_factory=dict)   # module-level ``NAME[key] = value`` after the definition, in order
 
     @property
     def short(self) -> str:
@@ -384,6 +385,8 @@ class Model:
             for t in stmt.targets:
                 if isinstance(t, ast.Name):
                     m.assigns[t.id] = stmt.value
+                elif isinstance(t, ast.Subscript) and isinstance(t.value, ast.Name) and t.value.id in m.assigns:
+                    m.sub_assigns.setdefault(t.value.id, []).append((t.slice, stmt.value))
         elif isinstance(stmt, ast.AnnAssign) and isinstance(stmt.target, ast.Name) and stmt.value is not None:
             m.assigns[stmt.target.id] = stmt.value
         elif isinstance(stmt, (ast.If, ast.Try)):
